@@ -475,7 +475,7 @@ pub fn main(env: &Env) -> i32 {
     ));
     env.finish(
         "exploration",
-        "generated operation sequences against the real block store with a model and history invariants; the peer path (block must carry the requested number) is exercised by the live part of C19",
+        "generated operation sequences against the real block store with a model and history invariants; the peer path (a fetched block must carry the requested number) belongs to C19",
         &["the harness storage layer honours the EngineInterface contract (accepts the block following the previously queued one, persists in order)"],
         parts,
     )
